@@ -30,7 +30,7 @@ Definition attenuate (p : policy) (lvl hops : N) : N :=
 (* ------------------------------------------------------------------ access graph *)
 Record grant := Gr { g_from : N; g_secret : N; g_level : N; g_cap : option N; g_valid : bool }.
 Record ttl_entry := Tt { t_entity : N; t_secret : N; t_exp : N }.
-Record deleg := Dg { d_parent : N; d_child : N; d_depth : N }.
+Record deleg := Dg { d_parent : N; d_child : N; d_depth : N; d_secs : list N }.
 
 (* one stored write: where, and the symbolic content *)
 Inductive sym := SValue (v : N) | SName (s : N) | SEntity (e : N) | SConst (c : N).
@@ -296,7 +296,7 @@ Definition op_delegate (s : st) (now parent child : N) (secs : list N) (lvl : N)
   else if N.ltb max_deleg_depth (deleg_depth (delegs s1) parent + 1) then (s1, R_GRAPH)
   else
     let ds := filter (fun d => negb (N.eqb (d_parent d) parent && N.eqb (d_child d) child)) (delegs s1)
-              ++ [Dg parent child (deleg_depth (delegs s1) parent + 1)] in
+              ++ [Dg parent child (deleg_depth (delegs s1) parent + 1) secs] in
     let s2 := St (secrets s1) (members s1) (grants s1 ++ map (fun x => Gr child x lvl (Some lvl) true) secs)
                  (match ttl with Some d => ttls s1 ++ map (fun x => Tt child x (now + d)) secs | None => ttls s1 end)
                  ds (wlog s1) in
@@ -304,6 +304,36 @@ Definition op_delegate (s : st) (now parent child : N) (secs : list N) (lvl : N)
     (log s2 (flat_map (fun x => [(4, Cat (Plain (SEntity parent)) (Cat (Plain (SEntity child)) (name x)))]
                                  ++ (match ttl with Some _ => [(3, Cat (Plain (SEntity child)) (name x))] | None => [] end)
                                  ++ w_edge child x ++ w_audit parent x) secs), R_OK).
+
+(* Vault::revoke_delegation (no permission check of its own: it is keyed by the (parent, child) record): every access
+   edge child -> secret for each secret of the record, their TTL entries, the record itself *)
+Definition op_revoke_deleg (s : st) (parent child : N) : st * N :=
+  match find (fun d => N.eqb (d_parent d) parent && N.eqb (d_child d) child) (delegs s) with
+  | None => (log s [(6, Cat (Plain (SEntity parent)) (Plain (SEntity child)))], R_NOTFOUND)
+  | Some rec =>
+      (log (St (secrets s) (members s)
+               (filter (fun g => negb (N.eqb (g_from g) child && mem (g_secret g) (d_secs rec))) (grants s))
+               (filter (fun t => negb (N.eqb (t_entity t) child && mem (t_secret t) (d_secs rec))) (ttls s))
+               (filter (fun d => negb (N.eqb (d_parent d) parent && N.eqb (d_child d) child)) (delegs s)) (wlog s))
+           (flat_map (fun x => w_audit parent x) (d_secs rec)), R_OK)
+  end.
+
+(* Vault::revoke_delegation_cascading: the (parent, child) record and every record below `child` in the
+   delegation forest; for each of them every access edge record.child -> secret of the record and its TTL entries.
+   Always Ok (also when there is no such record: the subtree below `child` is revoked all the same) *)
+Fixpoint deleg_desc (ds : list deleg) (fuel : nat) (nodes : list N) : list N :=
+  match fuel with
+  | O => nodes
+  | S f => deleg_desc ds f (nodes ++ map d_child (filter (fun d => mem (d_parent d) nodes && negb (mem (d_child d) nodes)) ds))
+  end.
+Definition op_revoke_cascade (s : st) (parent child : N) : st * N :=
+  let nodes := deleg_desc (delegs s) (length (delegs s)) [child] in
+  let gone := fun d => (N.eqb (d_parent d) parent && N.eqb (d_child d) child) || mem (d_parent d) nodes in
+  let recs := filter gone (delegs s) in
+  (St (secrets s) (members s)
+      (filter (fun g => negb (existsb (fun r => N.eqb (d_child r) (g_from g) && mem (g_secret g) (d_secs r)) recs)) (grants s))
+      (filter (fun t => negb (existsb (fun r => N.eqb (d_child r) (t_entity t) && mem (t_secret t) (d_secs r)) recs)) (ttls s))
+      (filter (fun d => negb (gone d)) (delegs s)) (wlog s), R_OK).
 
 (* seal(); the clock advances by d; get_permission(req, sec) while sealed; unseal().  While sealed the keyed
    name hash is computed with zeroed keys, so no stored node is found: a non-root requester gets nothing.
@@ -319,6 +349,8 @@ Inductive op :=
 | OGrant (req e sec lvl : N) (ttl : option N) | ORevoke (req e sec : N)
 | ODelegate (parent child : N) (secs : list N) (lvl : N) (ttl : option N)
 | OSealed (d req sec : N)
+| ORevokeDeleg (parent child : N)
+| ORevokeCascade (parent child : N)
 | OPerm (req sec : N)
 | OMember (a b : N) | OUnmember (a b : N)
 | OTick (d : N).      (* time passes *)
@@ -339,6 +371,8 @@ Definition step (s : st) (now : N) (o : op) : st * ans :=
   | ODelegate p c x l t => let '(s', r) := op_delegate s now p c x l t in (s', ACode r)
   | OPerm r x => let '(s', l) := get_permission s now r x in (s', ALevel l)
   | OSealed d r _ => let '(s', l) := op_sealed s now d r in (s', ALevel l)
+  | ORevokeDeleg pa c => let '(s', r) := op_revoke_deleg s pa c in (s', ACode r)
+  | ORevokeCascade pa c => let '(s', r) := op_revoke_cascade s pa c in (s', ACode r)
   | OMember a b => (St (secrets s) (members s ++ [(a, b)]) (grants s) (ttls s) (delegs s) (wlog s), ACode 0)
   | OUnmember a b => (St (secrets s) (filter (fun e => negb (N.eqb (fst e) a && N.eqb (snd e) b)) (members s))
                          (grants s) (ttls s) (delegs s) (wlog s), ACode 0)
